@@ -623,14 +623,22 @@ Example C04_unwrap_map_needs_unambiguous_enum_json :
     (ROk [(s "by_sym", FMap [(VStr (s "k"), FM [(s "ds", FL [FS (VEnum 1)])])])]).
 Proof. exact UnwrapMapFacts.unwrap_map_roundtrip_needs_unambiguous_enum_json. Qed.
 
-(* reflected_maps_plain is needed: `json:"b,omitempty"` drops a present-but-empty optional bytes field of a
-   reflected map value; its presence is lost and no class of defects_C04 fires *)
+(* reflected_maps_plain: (1) `json:"b,omitempty"` drops a present-but-empty optional bytes field of a reflected map
+   value; its presence is lost (since confirmed on the emitted code and tagged: the class D4ReflectedEmptyOptBytes,
+   "reflected-child-empty-optional-bytes-dropped", fires);
+   (2) it is still needed: an enum field of a reflected map value whose type carries one custom text on two values
+   (DUP_B is written "same" and read back as DUP_A); no class of defects_C04 fires *)
 Example C04_unwrap_map_needs_reflected_maps_plain :
   UnwrapMapFacts.um_case_but UnwrapMapFacts.Eu UnwrapMapFacts.ums (q "RefBoard")
     [(s "opts", FMap [(VStr (s "k"), FM [(s "b", FS (VBytes [])); (s "t", vstr "x")])])]
-    true false []
+    true false [D4ReflectedEmptyOptBytes]
     (JObj [(s "opts", JObj [(s "k", JObj [(s "t", JStr (s "x"))])])])
-    (ROk [(s "opts", FMap [(VStr (s "k"), FM [(s "t", vstr "x")])])]).
+    (ROk [(s "opts", FMap [(VStr (s "k"), FM [(s "t", vstr "x")])])]) /\
+  UnwrapMapFacts.um_case_but UnwrapMapFacts.Eu UnwrapMapFacts.ums (q "RefBoard")
+    [(s "dups", FMap [(VStr (s "k"), FM [(s "d", FS (VEnum 2))])])]
+    true false []
+    (JObj [(s "dups", JObj [(s "k", JObj [(s "d", JStr (s "same"))])])])
+    (ROk [(s "dups", FMap [(VStr (s "k"), FM [(s "d", FS (VEnum 1))])])]).
 Proof. exact UnwrapMapFacts.unwrap_map_roundtrip_needs_reflected_maps_plain. Qed.
 
 (* defects_C04 = [] is needed: -0.0 in a singular sibling is dropped by `x.F != 0` *)
@@ -648,7 +656,9 @@ Proof. exact UnwrapMapFacts.unwrap_map_roundtrip_needs_no_defects. Qed.
    well-typed values: no member set, a scalar member, a message member whose type has no codec of its own.
    - OneofPj.wt1 is ProtoJsonFacts.wt for a message type that declares oneofs (wt rejects every such type): members
      singular, at most one member of each oneof populated; the children are well-typed in the sense of wt.
-   - defects_C04 = [] is the classifier's region (D4FlatOneofChild, D4OneofVariantReflect, D4FlatOneofRemarshal).
+   - defects_C04 = [] is the classifier's region (D4FlatOneofChild, D4OneofVariantReflect, D4FlatOneofRemarshal,
+     D4OneofMemberIsDiscriminator, D4FlatVariantFieldIsVariant, D4FlatVariantBoolMap, D4OneofVariantBoolMap,
+     D4OneofVariantFoldClash, D4ReflectedEmptyOptBytes).
    - distinct oneof names: what protoc guarantees.
    - OneofFacts.oneof_keys_ok: the keys of the rendered object (populated fields, discriminators, inlined child fields)
      and the keys the decoder looks up are pairwise distinct.  ValidateOneofDiscriminator checks part of it; it misses
@@ -659,7 +669,12 @@ Proof. exact UnwrapMapFacts.unwrap_map_roundtrip_needs_no_defects. Qed.
      PARTIAL here: a member whose type owns a codec (the D4FlatOneofRemarshal region, and the non-flattened case where
      the variant's own UnmarshalJSON is given the protojson form) is the sub-case that is not proved; Timestamp members
      and an empty_behavior = NULL child are refuted below although no defect class fires.
-   - OneofFacts.variant_no_gap: four value shapes the classifier misses (refuted below). *)
+   - OneofFacts.variant_no_gap: no multi-word field of a NON-flattened member has a lowerCamel key that folds, for
+     encoding/json, onto another field of the Go struct.  (Weakened: the other shapes it used to exclude — empty optional
+     bytes, bool-keyed maps, NaN / Infinity inside repeated or map floats — were confirmed on the emitted code and are
+     defect classes of defects_C04 now, and so is the folding itself when the other field does not read the value,
+     D4OneofVariantFoldClash; the remainder — it does read it — round-trips but is not proved, see
+     C04_roundtrip_oneof_no_gap_remainder.) *)
 From SebufProofs Require OneofPj OneofFacts OneofExamples.
 Theorem C04_roundtrip_oneof_partial : forall E, ExtLaws E -> forall sc tn md m j,
   find_message (all_messages sc) tn = Some md -> owner_of sc md = Own FtOneof ->
@@ -692,16 +707,16 @@ Example C04_roundtrip_oneof_nonvacuous_xs :
   OneofExamples.oneof_case_ok xs (q "FlatEvent") [(s "eid", vstr "e"); (s "wide", FM [])]
     (JObj [(s "eid", JStr (s "e")); (s "ctype", JStr (s "wide"))]).
 Proof. exact OneofExamples.oneof_nonvacuous_xs. Qed.
-(* schema OneofExamples.os: no member; a scalar member; a non-flattened message member (multi-word field, bool-keyed map);
+(* schema OneofExamples.os: no member; a scalar member; a non-flattened message member (multi-word field, repeated double);
    a flattened message member (int64, repeated, map, double inlined); two configured oneofs at once *)
 Example C04_roundtrip_oneof_nonvacuous_os :
   OneofExamples.oneof_case_ok OneofExamples.os (q "Ev") [(s "eid", vstr "e")] (JObj [(s "eid", JStr (s "e"))]) /\
   OneofExamples.oneof_case_ok OneofExamples.os (q "Ev") [(s "eid", vstr "e"); (s "text", vstr "hi")]
     (JObj [(s "eid", JStr (s "e")); (s "text", JStr (s "hi")); (s "ctype", JStr (s "text"))]) /\
   OneofExamples.oneof_case_ok OneofExamples.os (q "Ev")
-    [(s "eid", vstr "e"); (s "note", FM [(s "body_text", vstr "b"); (s "w", vint 3); (s "bm", FMap [(VBool true, vstr "x")])])]
+    [(s "eid", vstr "e"); (s "note", FM [(s "body_text", vstr "b"); (s "w", vint 3); (s "fs", FL [FS (VFloat 4609434218613702656)])])]
     (JObj [(s "eid", JStr (s "e"));
-           (s "note", JObj [(s "bodyText", JStr (s "b")); (s "w", JNum 3); (s "bm", JObj [(s "true", JStr (s "x"))])]);
+           (s "note", JObj [(s "bodyText", JStr (s "b")); (s "w", JNum 3); (s "fs", JArr [jflt 4609434218613702656])]);
            (s "ctype", JStr (s "note"))]) /\
   OneofExamples.oneof_case_ok OneofExamples.os (q "Fl") [(s "eid", vstr "e"); (s "pic", OneofExamples.picv)]
     (JObj ([(s "eid", JStr (s "e")); (s "ctype", JStr (s "pic"))] ++ OneofExamples.picj)) /\
@@ -737,18 +752,96 @@ Example C04_roundtrip_oneof_needs_types_plain :
   OneofExamples.oneof_case_needs 6 OneofExamples.os (q "Fl") [(s "eid", vstr "e"); (s "at", FM [(s "seconds", vint 5)])] /\
   OneofExamples.oneof_case_needs 6 OneofExamples.os (q "Fl") [(s "eid", vstr "e"); (s "ec", FM [(s "nul_it", FM [])])].
 Proof. exact OneofExamples.oneof_needs_types_plain. Qed.
-(* 7 = variant_no_gap: empty optional bytes / bool-keyed map (flattened), NaN in a repeated double / multi-word key folding onto
-   another field (non-flattened); no defect class fires *)
+(* 7 = variant_no_gap.  Every shape the condition was introduced for (empty optional bytes / bool-keyed map in a flattened
+   member; NaN in a repeated double / bool-keyed map / a multi-word key folding onto a field of another type in a
+   non-flattened one) was confirmed on the emitted code and is a defect class now — D4ReflectedEmptyOptBytes,
+   D4FlatVariantBoolMap, D4OneofVariantReflect, D4OneofVariantBoolMap, D4OneofVariantFoldClash: the classifier fires on each
+   and the round trip fails.  What the (weakened) condition still excludes is C04_roundtrip_oneof_no_gap_remainder below *)
 Example C04_roundtrip_oneof_needs_no_gap :
-  OneofExamples.oneof_case_needs 7 OneofExamples.os (q "Fl") [(s "eid", vstr "e"); (s "pic", FM [(s "ob", FS (VBytes []))])] /\
-  (* (confirmed on the emitted code and tagged since: defect class D4FlatVariantBoolMap) *)
+  defects_C04 OneofExamples.os (q "Fl") [(s "eid", vstr "e"); (s "pic", FM [(s "ob", FS (VBytes []))])] = [D4ReflectedEmptyOptBytes] /\
+  rt_holds Ex OneofExamples.os (q "Fl") [(s "eid", vstr "e"); (s "pic", FM [(s "ob", FS (VBytes []))])] = false /\
   defects_C04 OneofExamples.os (q "Fl") [(s "eid", vstr "e"); (s "pic", FM [(s "bm", FMap [(VBool true, vstr "x")])])] = [D4FlatVariantBoolMap] /\
-  OneofExamples.oneof_case_needs 7 OneofExamples.os (q "Ev")
-    [(s "eid", vstr "e"); (s "note", FM [(s "fs", FL [FS (VFloat 9221120237041090561)])])] /\
-  OneofExamples.oneof_case_needs 7 OneofExamples.os (q "Ev") [(s "eid", vstr "e"); (s "fo", FM [(s "alt_text", vstr "x")])].
+  defects_C04 OneofExamples.os (q "Ev")
+    [(s "eid", vstr "e"); (s "note", FM [(s "fs", FL [FS (VFloat 9221120237041090561)])])] = [D4OneofVariantReflect] /\
+  rt_holds Ex OneofExamples.os (q "Ev") [(s "eid", vstr "e"); (s "note", FM [(s "fs", FL [FS (VFloat 9221120237041090561)])])] = false /\
+  defects_C04 OneofExamples.os (q "Ev")
+    [(s "eid", vstr "e"); (s "note", FM [(s "bm", FMap [(VBool true, vstr "x")])])] = [D4OneofVariantBoolMap] /\
+  rt_holds Ex OneofExamples.os (q "Ev") [(s "eid", vstr "e"); (s "note", FM [(s "bm", FMap [(VBool true, vstr "x")])])] = false /\
+  defects_C04 OneofExamples.os (q "Ev") [(s "eid", vstr "e"); (s "fo", FM [(s "alt_text", vstr "x")])] = [D4OneofVariantFoldClash] /\
+  rt_holds Ex OneofExamples.os (q "Ev") [(s "eid", vstr "e"); (s "fo", FM [(s "alt_text", vstr "x")])] = false.
 Proof. exact OneofExamples.oneof_needs_no_gap. Qed.
+(* the remainder of variant_no_gap: the lowerCamel key folds onto a field that reads the value (two strings).  All the other
+   hypotheses hold, no class fires, and the round trip HOLDS: the condition is a limit of the proof here, not a defect *)
+Example C04_roundtrip_oneof_no_gap_remainder :
+  let m := [(s "fo", FM [(s "foo_bar", vstr "."); (s "foobar", vstr "..")])] in
+  OneofExamples.oneof_hyps OneofExamples.fs (q "NestG") m = map (fun i => negb (Nat.eqb i 7)) (seq 0 8) /\
+  rt_holds Ex OneofExamples.fs (q "NestG") m = true.
+Proof. exact OneofExamples.oneof_no_gap_remainder. Qed.
 (* 2 = defects_C04 = [] *)
 Example C04_roundtrip_oneof_needs_no_defects :
   OneofExamples.oneof_case_needs 2 xs (q "Event") [(s "image", FM [(s "size", vint 7)])] /\
   OneofExamples.oneof_case_needs 2 xs (q "FlatEvent") [(s "eid", vstr "e"); (s "wide", FM [(s "alt_text", vstr "a")])].
 Proof. exact OneofExamples.oneof_needs_no_defects. Qed.
+
+(* ---- appended by P12_repair ---- *)
+
+(* One refutation per defect class the side conditions of C04_roundtrip_oneof_partial / C04_roundtrip_unwrap_map_partial
+   exposed (each confirmed on the emitted code, catalogue packages cxoneofdisc / cxoneofkeys / cxoneofgaps): the class fires
+   alone, MarshalJSON answers, UnmarshalJSON does not give the value back. *)
+Theorem C04_refuted_oneof_member_is_discriminator :
+  OneofExamples.refuted4_on OneofExamples.os D4OneofMemberIsDiscriminator (q "Ev") [(s "eid", vstr "e"); (s "ctype", vstr "x")].
+Proof. exact OneofExamples.refuted_oneof_member_is_discriminator. Qed.
+Print Assumptions C04_refuted_oneof_member_is_discriminator.
+Theorem C04_refuted_flat_variant_field_is_variant :
+  OneofExamples.refuted4_on OneofExamples.os D4FlatVariantFieldIsVariant (q "Fl") [(s "eid", vstr "e"); (s "self", FM [(s "self", vstr "x")])].
+Proof. exact OneofExamples.refuted_flat_variant_field_is_variant. Qed.
+Print Assumptions C04_refuted_flat_variant_field_is_variant.
+Theorem C04_refuted_flat_variant_bool_map :
+  OneofExamples.refuted4_on OneofExamples.os D4FlatVariantBoolMap (q "Fl")
+    [(s "eid", vstr "e"); (s "pic", FM [(s "bm", FMap [(VBool true, vstr "x")])])].
+Proof. exact OneofExamples.refuted_flat_variant_bool_map. Qed.
+Print Assumptions C04_refuted_flat_variant_bool_map.
+Theorem C04_refuted_oneof_variant_bool_map :
+  OneofExamples.refuted4_on OneofExamples.os D4OneofVariantBoolMap (q "Ev")
+    [(s "eid", vstr "e"); (s "note", FM [(s "bm", FMap [(VBool true, vstr "x")])])].
+Proof. exact OneofExamples.refuted_oneof_variant_bool_map. Qed.
+Print Assumptions C04_refuted_oneof_variant_bool_map.
+Theorem C04_refuted_reflected_empty_opt_bytes :
+  OneofExamples.refuted4_on OneofExamples.os D4ReflectedEmptyOptBytes (q "Fl") [(s "eid", vstr "e"); (s "pic", FM [(s "ob", FS (VBytes []))])].
+Proof. exact OneofExamples.refuted_reflected_empty_opt_bytes. Qed.
+Print Assumptions C04_refuted_reflected_empty_opt_bytes.
+Theorem C04_refuted_oneof_variant_fold_clash :
+  OneofExamples.refuted4_on OneofExamples.os D4OneofVariantFoldClash (q "Ev") [(s "eid", vstr "e"); (s "fo", FM [(s "alt_text", vstr "x")])].
+Proof. exact OneofExamples.refuted_oneof_variant_fold_clash. Qed.
+Print Assumptions C04_refuted_oneof_variant_fold_clash.
+(* D4OneofVariantReflect also covers NaN / Infinity as an ELEMENT of a repeated float field or a VALUE of a map *)
+Theorem C04_refuted_oneof_variant_reflect_nonfinite_element :
+  OneofExamples.refuted4_on OneofExamples.os D4OneofVariantReflect (q "Ev")
+    [(s "eid", vstr "e"); (s "note", FM [(s "fs", FL [FS (VFloat 9221120237041090561)])])].
+Proof. exact OneofExamples.refuted_oneof_variant_reflect_nonfinite_element. Qed.
+Print Assumptions C04_refuted_oneof_variant_reflect_nonfinite_element.
+
+(* The decoder model on contract-form input, two corners of encoding/json (both observed on the emitted code):
+   - two keys of one object that address the same struct field (an exact and a case-folded match): the field is assigned
+     once per key in document order — and the flattened decoder's json.Marshal(variantMap) puts the keys in byte order —
+     so the later key wins and the other field's value is silently lost;
+   - map[bool]T is no target for json.Unmarshal: a bool-keyed map inside a variant is refused, flattened or not. *)
+Example C04_flat_decode_fold_clash :
+  decode Ex OneofExamples.fs (q "FlatG") (JObj [(s "fooBar", JStr (s ".")); (s "foobar", JStr (s "..")); (s "kind", JStr (s "fo"))])
+    = ROk [(s "fo", FM [(s "foobar", vstr "..")])] /\
+  decode Ex OneofExamples.fs (q "FlatG") (JObj [(s "foobar", JStr (s "..")); (s "kind", JStr (s "fo")); (s "fooBar", JStr (s "."))])
+    = ROk [(s "fo", FM [(s "foobar", vstr "..")])] /\
+  decode Ex OneofExamples.fs (q "NestG")
+    (JObj [(s "fo", JObj [(s "fooBar", JStr (s ".")); (s "foobar", JStr (s ".."))]); (s "kind", JStr (s "fo"))])
+    = ROk [(s "fo", FM [(s "foo_bar", vstr "."); (s "foobar", vstr "..")])].
+Proof. exact OneofExamples.flat_decode_fold_clash. Qed.
+Example C04_variant_decode_bool_map_refused :
+  (exists e, decode Ex OneofExamples.fs (q "FlatG")
+               (JObj [(s "flags", JObj [(s "true", JStr (s "x"))]); (s "kind", JStr (s "bm")); (s "name", JStr (s "n"))]) = RErr e) /\
+  (exists e, decode Ex OneofExamples.fs (q "NestG")
+               (JObj [(s "bm", JObj [(s "flags", JObj [(s "true", JStr (s "x"))])]); (s "kind", JStr (s "bm"))]) = RErr e) /\
+  decode Ex OneofExamples.fs (q "NestG") (JObj [(s "bm", JObj [(s "flags", JNull); (s "name", JStr (s "n"))]); (s "kind", JStr (s "bm"))])
+    = ROk [(s "bm", FM [(s "name", vstr "n")])] /\
+  decode Ex OneofExamples.fs (q "NestG") (JObj [(s "bm", JObj [(s "name", JStr (s "n"))]); (s "kind", JStr (s "bm"))])
+    = ROk [(s "bm", FM [(s "name", vstr "n")])].
+Proof. exact OneofExamples.variant_decode_bool_map_refused. Qed.
